@@ -100,7 +100,9 @@ Resuming(ops, pc) == /\ ~st.done /\ stack # <<>> /\ ret.set /\ Op(Top.g) \in ops
 
 (* a deviation site: the defect branch may be taken only if the site is    *)
 (* enabled; the first use in a behaviour fixes the choice for the rest     *)
-KfMay(site, b) == IF site \in DOMAIN kf THEN kf[site] = b ELSE (b = "off" \/ site \in KFSites)
+OpenSites == {"o:tm_end"}          \* open choices: readings the statement leaves open, not defects
+IsOpen(site) == site \in OpenSites
+KfMay(site, b) == IF site \in DOMAIN kf THEN kf[site] = b ELSE (b = "off" \/ site \in KFSites \/ IsOpen(site))
 KfSet(site, b) == IF site \in DOMAIN kf THEN kf ELSE (site :> b) @@ kf
 (* ReturnK / CallK: like Return / Call but leave kf to KfSplit *)
 ReturnK(r, ncur, nsec, ninsp, nalt) == RetX(r, ncur, nsec, ninsp, nalt) /\ UNCHANGED <<cid, memo, obs, result>>
@@ -354,7 +356,9 @@ AFilterRet ==
      IN IF ~ret.ok THEN Keep(ErrRet)
         ELSE IF Pred(f.g[3], ret.val) THEN Keep(OkRet(MV(f.mode, ret.val)))
         ELSE \* the code files the rejection at the END of the match with found = None although the span
-             \* starts at a token: site "filter_found" (C06).  Correct: located where its span starts.
+             \* starts at a token: site "filter_found" (C06).  Correct: located where its span starts, so
+             \* that position, span start and `found` agree (a rejection filed at the end with the first
+             \* token as `found` would merge with an end-of-input failure into an incoherent error).
              KfSplit("filter_found",
                      ReturnK(ErrRet, cur, sec, insp, AddAlt(Ety, alt, f.cp.cur, {"else"}, TokAt(f.cp.cur), sp[1], sp[2])),
                      ReturnK(ErrRet, cur, sec, insp, AddAlt(Ety, alt, cur, {"else"}, "", sp[1], sp[2])))
@@ -396,14 +400,22 @@ ATryMapRet ==
              ELSE KfSplit("trymap_rehome",
                           ReturnK(OkRet(MV(f.mode, ret.val)), cur, sec, insp, AddAltErr(Ety, f.salt, alt.pos, alt.err)),
                           ReturnK(OkRet(MV(f.mode, ret.val)), cur, sec, insp, AddAltErr(Ety, f.salt, f.cp.cur, alt.err)))
-        ELSE \* the code lets the mapper error REPLACE the inner alt, however far ahead that was:
-             \* site "trymap_override" (C06).  Correct: both are failures of attempted alternatives.
-             KfSplit("trymap_override",
-                     ReturnK(ErrRet, cur, sec, insp,
-                             AddAltErr(Ety, IF alt.some THEN AddAltErr(Ety, f.salt, alt.pos, alt.err) ELSE f.salt,
-                                       f.cp.cur, UserErr(Ety, sp[1], sp[2], "tm"))),
-                     ReturnK(ErrRet, cur, sec, insp,
-                             AddAltErr(Ety, f.salt, f.cp.cur, UserErr(Ety, sp[1], sp[2], "tm"))))
+        ELSE \* The statement does not pin where a semantic rejection lies (start or end of the
+             \* rejected match): both are admissible readings, chosen once per behaviour as the
+             \* OPEN choice "o:tm_end".  In either reading the inner alt is a failure of an
+             \* attempted alternative and must survive.  The code instead lets the mapper error
+             \* REPLACE the inner alt, however far ahead that was: site "trymap_override" (C06).
+             LET merged == IF alt.some THEN AddAltErr(Ety, f.salt, alt.pos, alt.err) ELSE f.salt
+                 uerr == UserErr(Ety, sp[1], sp[2], "tm")
+             IN \/ /\ KfMay("trymap_override", "off") /\ KfMay("o:tm_end", "off")
+                   /\ ReturnK(ErrRet, cur, sec, insp, AddAltErr(Ety, merged, f.cp.cur, uerr))
+                   /\ kf' = KfSet("o:tm_end", "off") @@ KfSet("trymap_override", "off")
+                \/ /\ KfMay("trymap_override", "off") /\ KfMay("o:tm_end", "on")
+                   /\ ReturnK(ErrRet, cur, sec, insp, AddAltErr(Ety, merged, cur, uerr))
+                   /\ kf' = KfSet("o:tm_end", "on") @@ KfSet("trymap_override", "off")
+                \/ /\ KfMay("trymap_override", "on")
+                   /\ ReturnK(ErrRet, cur, sec, insp, AddAltErr(Ety, f.salt, f.cp.cur, uerr))
+                   /\ kf' = KfSet("trymap_override", "on")
 
 (* Validate::go: child in Emit; the validator may emit; emissions are      *)
 (* located at `before`                                                     *)
